@@ -743,6 +743,7 @@ func installTracer() {
 		with(r, "state", func(c *cluster, e *event) {
 			if r.state == Leader {
 				// runs on the raft goroutine: reading its log here is safe
+				e.cfg = r.configs.clone()
 				e.prev, e.snap = r.log.PrevIndex(), r.snaps.index
 				e.a = r.lastLogIndex
 				e.terms = logTerms(r)
